@@ -33,7 +33,7 @@ def gen(rng, tier):
         focus["fix"] = True
     if rng.random() < 0.5:
         focus["res_abs"] = True
-    return C.maybe_history(rng, C.forward_spec(rng, tier, focus), 0.25, reload_prob=0.3)
+    return C.maybe_org_edit(rng, C.maybe_history(rng, C.forward_spec(rng, tier, focus), 0.3, reload_prob=0.3), 0.35)
 
 
 def extra_candidates(spec):
@@ -140,13 +140,18 @@ def check_trace(res, tr):
         for tid in st.order:
             prev_alloc[tid] = (last["T"][tid][2], last["T"][tid][3])
     # allocation logs must tell the same story (eligibility on the logged IDs)
+    off = getattr(tr, "log_offset", 0) if (getattr(tr, "history", None) or {}).get("org_edit") else 0
     for t in tr.ix.tasks:
         tid = t.ID
         for i, ids in enumerate(t.allocated_worker_id_record):
+            if i < off:
+                continue  # entries of the first call, made under the organisation as it was before the edit
             for w in ids or []:
                 if w in st.worker and not st.eligible_w(w, tid):
                     res.add("log", "C04.log_ineligible_worker", "allocation log of %s at index %d lists ineligible worker %s" % (tid, i, w), i)
         for i, ids in enumerate(t.allocated_facility_id_record):
+            if i < off:
+                continue
             for f in ids or []:
                 if f in st.fac and not st.eligible_f(f, tid):
                     res.add("log", "C04.log_ineligible_facility", "facility log of %s at index %d lists ineligible facility %s" % (tid, i, f), i)
